@@ -137,6 +137,12 @@ class Recorder:
         }
         if tree is not None:
             obs, objs = self._walk(tree, owner)
+            for o in obs:
+                # a node that claims to be hit number ix of text t, where the hits recorded for t (its first search) have no
+                # such entry: the registry did not behave as a function of the text (concurrent or stateful decoders)
+                if o["by"] == "engine" and not (1 <= o["src"][1] <= len(hits.get(o["src"][0], []))):
+                    o["by"], o["src"] = "other", [0, 0]
+                    rec["outcome"] = "nondet"
             rec["tree"] = obs
             pos = {id(o): i + 1 for i, o in enumerate(objs)}
             try:
